@@ -23,7 +23,13 @@ PROP = dict(
          "in any order out of {SetOLEDPixelColor, SetOLEDBckgColor, NewImage, CreateFromBytes short/exact/long, FillRect, "
          "CreateFromImage of a converted mono image / of an RGBA image / of the object's own ConvertToImage, export}, every second "
          "(re)creation with exactly the byte size the object already holds (same size, same byte column count, transposed), "
-         "colour fields, canvas and both exports printed call by call; pix.gfx / pix.gfxo (30% of the states: XYoffset, X, Y "
+         "colour fields, canvas and both exports printed call by call; pix.seq: n/2 sequences of 2-4 conversions in a row, the caller "
+         "keeping every result (CreateImgObjectFrom*Bytes / RwpImgToImage image objects and the ConvertGfxStateToPngBytes bytes of "
+         "a state in any of the three formats; GetImgSlice / GetImgSliceRGB / GetImgSliceGray slices and the ConvertToImage object "
+         "of a mono image, on a fresh object or on the object of the step before), a later step mostly of the same format and "
+         "declared size with flatter (one constant byte) / other / shorter data or of a smaller size, every result printed right "
+         "after its call and again after the last call (PNG decoded then), 25% with two goroutines running the sequence at the "
+         "same time; pix.gfx / pix.gfxo (30% of the states: XYoffset, X, Y "
          "set to non-default values): the three formats, for every size 0..6 x 0..3 (mono also widths +6, +14; thorough "
          "0..10 x 0..5) every data length 0..needed+2, then n random states up to 24x12 (thorough 64x64) with data shorter / equal / "
          "longer, then declared sizes up to 320 pixels per side; each through CreateImgObjectFrom*Bytes, RwpImgToImage at the declared "
@@ -65,7 +71,7 @@ CLAIM = dict(
          "held and satisfies clause (3). The placement fields XYoffset/X/Y of a graphics message are parameters of no conversion "
          "(Spec and model): routines agree, centred placement (rwp_centering). "
          "The same Spec predicates are evaluated on the real library's outputs and model = code is checked on "
-         "generated records (all 64x64 colour pairs, all sizes of the grid, every truncation length for small images, call sequences on one object in every order of set colours / (re)create / draw / export incl. re-creation with exactly the byte size already held, graphics messages with the placement fields set). Finding fixed by the "
+         "generated records (all 64x64 colour pairs, all sizes of the grid, every truncation length for small images, call sequences on one object in every order of set colours / (re)create / draw / export incl. re-creation with exactly the byte size already held, sequences of conversions whose results the caller keeps - every result is compared right after its call and again after the later calls (clause `retained`: a later conversion changes nothing an earlier one returned; the model's conversions are functions of their arguments), graphics messages with the placement fields set). Finding fixed by the "
          "patch: with mono data shorter than declared the PNG path rendered all black while RwpImgToImage expanded the bytes present "
          "(short_mono_png_black_counterexample).",
     note=TB + "image.RGBA / image/draw / image/png are trusted as modelled (PNG identity additionally compared on every run). Go int unbounded.",
